@@ -275,7 +275,10 @@ def build(spec):
             gid = e[1]
             if gid not in groups:
                 g = spec["groups"][gid]
-                base = Environments.from_linear_synthetic(g["n"], n_actions=g.get("na", 3), n_context_features=2, n_action_features=2, seed=g["seed"])
+                if g.get("source") == "supervised":      # an environment whose params are complete only once it has been read (n_actions of a SupervisedSimulation)
+                    base = Environments.from_supervised([[i % 5, (i * 7) % 3] for i in range(g["n"])], [["a", "b", "c"][(i * i + g["seed"]) % 3] for i in range(g["n"])], "c")
+                else:
+                    base = Environments.from_linear_synthetic(g["n"], n_actions=g.get("na", 3), n_context_features=2, n_action_features=2, seed=g["seed"])
                 if g.get("logged"): base = base.logged(BanditEpsilonLearner(0.5, 3) if g.get("logger") == "eps" else RandomLearner(), seed=2.5)
                 if g.get("prefix") == "chunk": base = base.chunk()
                 elif g.get("prefix") == "cache": base = base.cache()
